@@ -75,14 +75,25 @@ class C08(Prop):
         out = []
         traits = [(t, 'bin', f, s) for t, f, s in BIN] + [(t + 'Assign', 'assign', f, s) for t, f, s in BIN] + \
                  [(t, 'un', f, s) for t, f, s in UN]
-        for (tr, kind, f, sym), (sk, n), mode in itertools.product(traits, SHAPES, ('attr', 'derive')):
-            fs = [sx.field(MT, name=('f%d' % i) if sk == 'named' else None) for i in range(n)]
+        plans = [(t, sh, mode, None) for t, sh, mode in itertools.product(traits, SHAPES, ('attr', 'derive'))]
+        # a field-level `#[derive_ex(Op(bound(..)))]` / `#[derive_ex(Op)]` on a field that is not the first one: the
+        # results must still be paired with the fields in declaration order
+        for k, (t, (sk, n)) in enumerate(itertools.product(traits, SHAPES)):
+            if n >= 2:
+                plans.append((t, (sk, n), 'attr' if k % 2 else 'derive', (n - 1 - (k % 2 if n >= 3 else 0), k % 3)))
+        for (tr, kind, f, sym), (sk, n), mode, fattr in plans:
+            def fa(i):
+                if fattr is None or fattr[0] != i:
+                    return []
+                arg = [None, ([sx.B_DOTS], False), ([], False)][fattr[1]] if fattr[1] < 2 else ([sx.B_DOTS], False)
+                return [sx.a_derive_ex(sx.dx([(tr, arg)]))]
+            fs = [sx.field(MT, name=('f%d' % i) if sk == 'named' else None, attrs=fa(i)) for i in range(n)]
             body = sx.named(fs) if sk == 'named' else (sx.unnamed(fs) if sk == 'tuple' else sx.UNIT)
             it = sx.struct('X', body)
             tl = [(tr, None)]
             req = sx.inv_attr(sx.dx(tl), it) if mode == 'attr' else sx.inv_derive(
                 '(struct (' + sx.a_derive_ex(sx.dx(tl)) + ' ' + it[len('(struct ('):])
-            out.append((req, dict(features=(tr, sk + str(n), mode), trait=tr, kind=kind, fn=f, sym=sym, shape=(sk, n),
+            out.append((req, dict(features=(tr, sk + str(n), mode, 'field-helper@%d' % fattr[0] if fattr else 'plain'), trait=tr, kind=kind, fn=f, sym=sym, shape=(sk, n),
                                   nontrivial=n > 0)))
         return out
 
